@@ -13,6 +13,7 @@ sys.path.insert(0, os.path.join(os.path.dirname(os.path.abspath(__file__)), '..'
 import common
 import meta_common as M
 import meta_falsify as F
+import whole_common as W
 from gen import meta as G
 
 def replay_corpus(chk, work, stats):
@@ -112,6 +113,8 @@ def main():
         mo_model_stream(chk, work, 40 * scale)
         found += F.cli_subset(chk, work, 8 * scale, stats)
         keyed = F.charset_declarations(chk, work, stats)
+        # --- the composed model against the real tool on whole files (loader model ∘ Real.pipeline vs Checker.check)
+        found += W.stream(chk, work.root, chk.rng, 260 * scale)
         # --- the metamorphic falsifiers
         seeds = [chk.seed] + ([chk.seed + 1000 * k for k in (1, 2, 3)] if thorough else [])
         import random
@@ -146,10 +149,11 @@ def main():
         trusted=['Lean 4.33 kernel, standard axioms', 'tools/translate/meta2lean.py (ast inventories; pinned to Spec.Metamorphic)',
                  'Model/Deb.lean tied to lib/cli.py + Checker.__init__ by the deb-fakepath and deb-checkfile streams (real dpkg-deb, what os.walk yielded, independent extraction)',
                  'C08 parse_of_encodes (model of lib/moparser.py, tied by the mo-parse streams)',
+                 'tools/checks/whole_common.py + lean/I18n/Driver/Whole.lean: the whole-files stream ties Real.wholeCheck (loader model + Real.pipeline) to Checker.check on file bytes',
                  'contract of tempfile.TemporaryDirectory, dpkg-deb, os.walk: TESTED (TMPDIR snapshots, also with an injected member failure and with unreadable packages)',
                  'the models of C08, C10, C14-C16, C18-C20, C07 and their ties (composed in Lemmas/MetaReal.lean); the adapters Obs -> Hdr.Entry / MsgFacts / Msg.Entry are '
                  'hand-written; the metamorphic comparisons on the real tool remain the tie of the composition as a whole'],
-        explanation='PROVED over the composed model (C10/C08 loaders + the stage models of C15, C19, C07, C20, C18, C16, C14): same_catalog_same_diagnostics '
+        explanation='PROVED over the composed model (C10/C08 loaders + the stage models of C15, C19, C07, C20, C18, C16, C14; whole_is_composition: it is the function the whole-files stream runs against the real tool; output_order + stage_order_pinned: tags in the order of the source): same_catalog_same_diagnostics '
                     '(po_spelling_invariant_composed, mo_layout_invariant_composed), transcoding_composed(_files) with the charset-name blindness of every stage but check_mime '
                     'proved for the instantiated models, po_vs_mo_composed(_check), po_file_vs_compiled_mo, checkAll_decomposes; generic layer: mo_layout_invariant, '
                     'po_spelling_invariant (no loader hypothesis), check_sim, po_vs_mo / po_vs_mo_hidden / po_vs_mo_check, exemption_iff, mo_entry_view_neutral, '
